@@ -12,6 +12,9 @@
 #include <boost/gil/extension/dynamic_image/dynamic_image_all.hpp>
 #include <boost/gil/pixel_numeric_operations.hpp>
 
+#include <cmath>
+#include <type_traits>
+
 namespace boost { namespace gil {
 
 // Nearest-neighbor and bilinear image samplers.
@@ -51,6 +54,25 @@ bool sample(nearest_neighbor_sampler, SrcView const& src, point<F> const& p, Dst
 struct cast_channel_fn {
     template <typename SrcChannel, typename DstChannel>
     void operator()(const SrcChannel& src, DstChannel& dst) {
+        using dst_value_t = typename channel_traits<DstChannel>::value_type;
+        cast(src, dst, std::integral_constant
+            <
+                bool,
+                std::is_floating_point<SrcChannel>::value && std::is_integral<dst_value_t>::value
+            >());
+    }
+
+private:
+    // An interpolated value goes to the nearest integer: the weights of an interpolation add up to 1 only
+    // within rounding error, so truncation would turn 255 * 0.99999994 into 254.
+    template <typename SrcChannel, typename DstChannel>
+    static void cast(const SrcChannel& src, DstChannel& dst, std::true_type) {
+        using dst_value_t = typename channel_traits<DstChannel>::value_type;
+        dst = dst_value_t(std::floor(src + SrcChannel(0.5)));
+    }
+
+    template <typename SrcChannel, typename DstChannel>
+    static void cast(const SrcChannel& src, DstChannel& dst, std::false_type) {
         using dst_value_t = typename channel_traits<DstChannel>::value_type;
         dst = dst_value_t(src);
     }
